@@ -6,12 +6,11 @@ namespace point_one {
 namespace fusion_engine {
 namespace messages {
 
+// The text is the one ToString() produces, inserted as one string: inserting the two numbers themselves would format
+// them with the stream's locale (digit grouping: "1.65,535") and flags (std::hex: "1.ffff"; std::setw() applied to
+// the major number only), none of which FromString() can read back.
 p1_ostream& operator<<(p1_ostream& stream, const DataVersion& ver) {
-  if (ver.IsValid()) {
-    return stream << (int)ver.major_version << "." << ver.minor_version;
-  } else {
-    return stream << "<invalid>";
-  }
+  return stream << ToString(ver);
 }
 
 std::string ToString(const DataVersion& ver) {
